@@ -94,10 +94,15 @@ template<class T> static void props(const char* nm, bool series, const T& t, dou
       // far-side equator: the point lies on the cut, both sheets (x, +-y, +-gamma) are its images (the code documents the southern one)
       if (alat == 0 && backside && (r.y < 0) != (oy < 0)) { oy = -oy; og = -og; }
       double dist = std::hypot(r.x - ox, r.y - oy);
-      if (!(dist <= tl.pos())) bad("gauss-krueger-" + N, "position differs from the independent evaluation of the Gauss-Krueger mapping by " + s9(dist) + " (tolerance " + s9(tl.pos()) + "), dx = " + sg(r.x - ox) + " dy = " + sg(r.y - oy));
+      // finding F90 (open): the exact form builds EllipticFunction(_mv) from _mv = 1 - e^2 alone, which recomputes k'^2 = 1 - _mv with a relative
+      // error eps/e^2; beyond the branch point the coordinates inherit it.  Class, decided independently of the size of the violation's excess:
+      // exact form, e^2 <= 1e-4, |lon - lon0| >= 90(1 - 2e), and a discrepancy of the position not larger than (eps/e^2)/8 times |(x, y)|
+      double mu = f * (2 - f); bool f90 = !series && f > 0 && mu <= 1e-4 && ad >= 90 * (1 - 2 * e) && dist <= EPS / mu / 8 * std::hypot(r.x, r.y);
+      std::string cls = f90 ? " [class:exact-kp2-cancellation e^2 = " + sg(mu) + "]" : "";
+      if (!(dist <= tl.pos())) bad("gauss-krueger-" + N, "position differs from the independent evaluation of the Gauss-Krueger mapping by " + s9(dist) + " (tolerance " + s9(tl.pos()) + "), dx = " + sg(r.x - ox) + " dy = " + sg(r.y - oy) + cls);
       double tz = double(o.sens) * (tl.round + 16 * tl.trunc) / k0 + 64 * EPS;
-      if (!(angd(r.g, og) <= tz / Math::degree() + 4e-14)) bad("convergence-" + N, "gamma differs from -arg of the derivative of the mapping by " + sg(std::remainder(r.g - og, 360.0)) + " deg (tolerance " + sg(tz / Math::degree() + 4e-14) + ")");
-      if (!(std::fabs(r.k / ok - 1) <= tz)) bad("scale-" + N, "k differs from the magnification of the mapping: k/k_oracle - 1 = " + sg(r.k / ok - 1) + " (tolerance " + sg(tz) + ")");
+      if (!(angd(r.g, og) <= tz / Math::degree() + 4e-14)) bad("convergence-" + N, "gamma differs from -arg of the derivative of the mapping by " + sg(std::remainder(r.g - og, 360.0)) + " deg (tolerance " + sg(tz / Math::degree() + 4e-14) + ")" + cls);
+      if (!(std::fabs(r.k / ok - 1) <= tz)) bad("scale-" + N, "k differs from the magnification of the mapping: k/k_oracle - 1 = " + sg(r.k / ok - 1) + " (tolerance " + sg(tz) + ")" + cls);
     } else stat("oracle-not-converged");
   }
   // ---- central meridian and equator
@@ -296,7 +301,7 @@ static Reg r_kr("tmkr", [](const Args& A) {
 void gv::generate(const std::string& tier, uint64_t seed) {
   Rng r(seed * 2862933555777941757ULL + 6);
   long n = tier == "thorough" ? 10000 : 1300;
-  struct El { double a, f; }; std::vector<El> els = {{aW, fW}, {6.4e6, 1 / 150.0}, {6.4e6, 0.01}, {6.4e6, -0.01}, {6.4e6, 0.1}, {aW, fW}};
+  struct El { double a, f; }; std::vector<El> els = {{aW, fW}, {6.4e6, 1 / 150.0}, {6.4e6, 0.01}, {6.4e6, -0.01}, {6.4e6, 0.1}, {aW, fW}, {aW, -fW}, {6.4e6, 0.0}, {6.4e6, 1e-6}};
   std::vector<double> k0s = {1, 0.9996, 10}, lon0s = {0, 7, -123.5, 179, -180, 540, -75.25, 1e-10};
   std::vector<double> dls = {0, 1e-10, 3, 35, 60, 89, 90, 90 - 1e-10, 90 + 1e-10, 179, 180};
   std::vector<double> las = {0, -0.0, 1e-10, -1e-10, 89.999999, -89.999999, 90, -90, 89.9999999999, -89.9999999999};
@@ -322,6 +327,9 @@ void gv::generate(const std::string& tier, uint64_t seed) {
     double lon = lon0 + d;
     if (ks == 6 || ks == 7) { lon0 = 0; lon = d; }      // keep the offset exact on the strata where a single ulp matters
     if (i % 37 == 5) { lon0 = 179; lon = -179 - r.range(0, 30); st = "lon0-wrap"; }
+    if (i % 43 == 9) {   // central meridian at / next to the date line, the point on the other side of it (AngDiff must wrap)
+      lon0 = r.pick(std::vector<double>{180.0, -180.0, 179.9999999, -179.9999999, nextdn(180.0), 179.5}); double dd = r.pick(std::vector<double>{r.range(0, 3), r.range(0, 35), 1e-9, 0.0, 90.0, 89.0});
+      lon = (lon0 > 0 ? lon0 - 360 : lon0 + 360) + (lon0 > 0 ? dd : -dd); st = "lon0-dateline"; }
     if (i % 41 == 7) { lon = lon0 + d + 360.0 * r.irange(-40000000, 40000000); st = "huge-lon"; }
     if (i % 97 == 11) { lat = r.pick(std::vector<double>{90.0000001, -91.0, NAN}); st = "invalid-lat"; }
     run("tmfwd", {hx(e.a), hx(e.f), hx(k0), hx(lon0), hx(lat), hx(lon)}); stratum("fwd-" + st + (e.f == fW ? "-wgs84" : "-f" + std::to_string(e.f).substr(0, 6)));
